@@ -289,13 +289,17 @@ class KernelRun:
     async def pop_until(self, label, limit=6):
         """Dispatch until `label` is RUNNING (other dispatched steps stay RUNNING/CHECKING)."""
         wf = self.wf
-        for _ in range(limit):
+        pops = 0
+        for _ in range(2 * limit + 2):
             state = await self.q(lambda: wf.find(Step, label).get_state() if wf.find(Step, label) else None)
             if state == StepState.RUNNING:
                 return True
             if state == StepState.CHECKING:
                 await self.check_failed(label)
                 continue
+            if pops >= limit:
+                return False
+            pops += 1
             ans = await self.pop()
             if ans.startswith("ok none") or not ans.startswith("ok"):
                 return False
